@@ -62,9 +62,14 @@ TInit ==
        /\ local = Src(r.k0) /\ cnt = r.b0
        /\ stD = r.st
        /\ sizeD = IF r.st = "QUEUED" THEN -1 ELSE r.size
+       /\ pathD = IF r.st = "QUEUED" THEN "none" ELSE "n0"
+       /\ made = IF r.st = "QUEUED" THEN {} ELSE {"n0"}
   /\ rsnD = FALSE /\ remQ = FALSE /\ pcD = "idle" /\ expTk = -1 /\ recvD = 0 /\ needD = 0
   /\ stU = "NONE" /\ rsnU = FALSE /\ pcU = "idle" /\ tkt = 0 /\ offU = 0 /\ sentU = 0
   /\ chDU = <<>> /\ chUD = <<>> /\ fc = NoFc /\ stall = FALSE /\ faults = 0 /\ heldUF = 0
+  \* every download of a run is validated as "ours" in its own trace; what another download does is not a
+  \* step of this trace, so bytes of another download in our file are never explained
+  /\ pathT = "none" /\ plock = "none" /\ pcT = "off"
   /\ marks = {} /\ nq = 0
 
 IsEv(e) == l <= Len(T) /\ Rec.ev = e
@@ -175,6 +180,8 @@ Silent ==
         \/ URecvQueue /\ stU' = stU
         \/ URecvReply /\ stU' = stU
         \/ UOpenFileConn
+        \/ DPickPath
+        \/ DCreateFile
         \/ pcU = "send" /\ fc.st \notin {"reset", "ubroken"} /\ S.sent > sentU /\ USend(Min(S.sent - sentU, Remaining))
         \/ S.sent = sentU /\ USendDone
         \/ LET n == Min(BLen(fc.fl), Rec.nlen - LocalLen) IN n >= 1 /\ DRecv(n)
